@@ -99,7 +99,7 @@ func (e *Env) applyContract(st *State, ct *Contract, args []Val, rt types.Type, 
 	if e.specMode == 0 {
 		for _, r := range ct.Requires {
 			g := cx.evalBool(r.Expr)
-			e.oblige(st, "pre@callsite", lastName(ct.Key)+":"+r.Label+"@"+e.pos(pos), g, r.Text, pos)
+			e.oblige(st, "pre-callsite", lastName(ct.Key)+":"+r.Label+"@"+e.pos(pos), g, r.Text, pos)
 			st.assume(g)
 		}
 	}
@@ -189,6 +189,22 @@ func (e *Env) applyModifies(st *State, cx *cenv, m Clause) {
 // evalInvariant evaluates a loop invariant in the current frame (locals visible by source name).
 func (e *Env) evalInvariant(st *State, fr *Frame, ct *Contract, inv Clause) string {
 	vars := e.localVars(st, fr)
+	// idxN: number of completed iterations of range loop N (range index phi + 1)
+	for hb, l := range e.loopInfo(fr.fn).headers {
+		for _, ins := range hb.Instrs {
+			ph, ok := ins.(*ssa.Phi)
+			if !ok || ph.Comment != "rangeindex" {
+				continue
+			}
+			if pv, ok := fr.regs[ph]; ok && pv.K == kTerm {
+				t := tApp("bvadd", pv.T, bvLit(1, 64))
+				if x, _, isLit := bvLitVal(pv.T); isLit {
+					t = bvLit(x+1, 64)
+				}
+				vars[fmt.Sprintf("idx%d", l.ordinal)] = termVal(types.Typ[types.Int], bvSort(64), t)
+			}
+		}
+	}
 	cx := &cenv{e: e, pre: e.oldState, post: st, vars: vars, ct: ct, file: ct.File}
 	return cx.evalBool(inv.Expr)
 }
